@@ -187,6 +187,18 @@ def c07(prop, tier):
                'replay of the log after every step; non-trivial = >=2 writers and >=1 merge')
     small = cfg_small('doc', ['a', 'b'], 2 if tier == 'quick' else 3, 1)
     run_core(ck, prop, 'doc', tier, small=small, **sizes(tier))
+    # Get with its options / Query / Delete of an absent key: table evaluated by TLC from spec/DocTable.tla, replayed row by row
+    table, tr = vlib.tlc_table('DocTable.tla', 'C07-doctable', 'doc_table.json')
+    ck.add_tlc(tr, 'DocTable: inclusion properties of Get options (ASSUME) and table of %d rows' % (len(table) if table else 0))
+    if not table:
+        ck.inconclusive.append('TLC did not produce the document Get table: ' + tr['out'][-500:])
+    else:
+        keys = sorted({''.join(k) for row in table for k in row['state']})
+        inp = {'property': prop, 'seed': SEED, 'rows': table, 'all_keys': keys}
+        res = vlib.run_vh('doctable', inp, tag='C07-doctable')
+        ck.add_harness(res, lambda v: {'command': 'doctable', 'input': inp, 'violation': v}, 'document Get table')
+        ck.extra['docget_queries'] = res.get('stats', {}).get('docget_queries', 0)
+        log('  doctable: %d states, %d Get queries, %d violations' % (res.get('behaviours', 0), ck.extra['docget_queries'], len(res['violations'])))
     return ck.finish()
 
 
@@ -195,7 +207,15 @@ def c08(prop, tier):
     ck.rule = ('behaviours of spec/Core.tla (log) replayed on 3 real replicas; listing before/after every step compared with the '
                'specification order and checked for removals/reorderings; non-trivial = >=2 writers and >=1 merge')
     small = cfg_small('log', ['a', 'b', 'c'], 3 if tier == 'quick' else 4, 1)
-    run_core(ck, prop, 'log', tier, small=small, **sizes(tier))
+    # the window operator: properties proved by TLC over every listing of <= 6 entries, every bound and amount; its table is replayed
+    table, tr = vlib.tlc_table('WindowTable.tla', 'C08-window', 'window_table.json')
+    ck.add_tlc(tr, 'Windows: contiguity/anchoring/length of every window (ASSUME) and table of %d rows' % (len(table) if table else 0))
+    if not table:
+        ck.inconclusive.append('TLC did not produce the window table: ' + tr['out'][-500:])
+        table = []
+    res = run_core(ck, prop, 'log', tier, small=small, extra={'windows': table}, **sizes(tier))
+    ck.extra['window_queries'] = res.get('stats', {}).get('window_queries', 0)
+    ck.extra['window_table_rows'] = len(table)
     return ck.finish()
 
 
@@ -277,6 +297,13 @@ def replay(prop, path):
             log('VIOLATION property=%s replay=%s' % (prop, path))
             log('  kind=%s %s' % (v['kind'], v['detail']))
         return 1 if vs else (2 if res.get('inconclusive') else 0)
+    if p.get('command') == 'doctable':
+        res = vlib.run_vh('doctable', p['input'], tag='replay')
+        vs = res.get('violations', [])
+        for v in vs[:5]:
+            log('VIOLATION property=%s replay=%s' % (prop, path))
+            log('  kind=%s %s' % (v['kind'], v['detail']))
+        return 1 if vs else 0
     if p.get('command') == 'core-trace':
         tp = os.path.join(vlib.WORK, 'jobs', 'replay-trace.ndjson')
         os.makedirs(os.path.dirname(tp), exist_ok=True)
